@@ -42,7 +42,8 @@ Remaining hypotheses of these theorems beyond the property's own (valid history,
 `hvals` (canonical validator record; C12), `hobs` (the forkless-cause oracle answers the graph
 relation `N.FC` both before and after the restart — C05 for the vector index; the reload of the
 index from `BranchesInfo` is not modelled), `hseal` (the application does not seal: one epoch).
-Not proved: restarts across epoch seals, the vector index reload, store caches (C33).
+Restarts across epoch seals: `Consensus.indexed_restarts_multi_epoch_partial` (Props/Consensus.lean, combined model); reload of the
+vector index from its store: Props/VecPersist.lean. Not proved here: store caches (C33).
 
 Earlier one-step results (kept; first half of this file):
 * `C08_persisted_unchanged` (unconditional): `bootstrap` changes nothing of the persisted part unless it
